@@ -306,6 +306,37 @@ func s4Copy() []BashCase {
 		"from-literal-and-call":  {fn("mk", nil, []Type{TSliceInt}, ret(SliceLit{TInt, []Expr{il(4), il(5)}})), def("a", SliceLit{TInt, []Expr{il(0)}}), pr(Copy{"a", call("mk")}, Index{"a", il(0)}, Index{"a", il(1)})},
 		"twelve":                 {VarDecl{Names: []string{"a"}, Type: TSliceInt}, forUp("i", 12, SliceSet{"a", vr("i"), vr("i")}), VarDecl{Names: []string{"b"}, Type: TSliceInt}, pr(Copy{"b", vr("a")}, Len{vr("b")}, Index{"b", il(9)}, Index{"b", il(10)}, Index{"b", il(11)})},
 	}
+	// copy is element-wise identity whatever the elements look like: strings shaped like options of the
+	// commands a back end might use, blanks, patterns, empty strings, line breaks at the end
+	{
+		odd := []string{"-n", "-e", "-E", "-nee", "-", "--", "-n x", " x ", "*", "", "a\n", "\n", "a\tb", "%s", "x"}
+		se, de := []Expr{}, []Expr{}
+		for _, v := range odd {
+			se = append(se, sl(v))
+			de = append(de, sl("old"))
+		}
+		body := []Stmt{def("src", SliceLit{TString, se}), def("dst", SliceLit{TString, de}), def("n", Copy{"dst", vr("src")}), pr(vr("n"), Len{vr("dst")}),
+			For{Kind: ForRange, RangeIdx: "i", RangeVal: "v", Over: vr("dst"), Body: []Stmt{pr(vr("i"), Len{vr("v")}, framed(vr("v")), cmp("==", vr("v"), Index{"src", vr("i")}))}}}
+		extra["elements-shaped-like-options"] = body
+		extra["elements-shaped-like-options-in-function"] = []Stmt{fn("run", nil, nil, body...), callS("run")}
+		ie := []Expr{}
+		for _, v := range []int64{-1, 0, -0, 7, -2147483648, 10, 8} {
+			ie = append(ie, il(v))
+		}
+		extra["negative-and-zero-ints"] = []Stmt{def("src", SliceLit{TInt, ie}), VarDecl{Names: []string{"dst"}, Type: TSliceInt}, pr(Copy{"dst", vr("src")}), For{Kind: ForRange, RangeIdx: "i", RangeVal: "v", Over: vr("dst"), Body: []Stmt{pr(vr("i"), vr("v"), cmp("==", vr("v"), Index{"src", vr("i")}))}}}
+	}
+	// several builtin results in one statement: each value is the one its own operand yields
+	extra["multi-value/copy-and-len"] = []Stmt{def("buffer", SliceLit{TInt, []Expr{il(0), il(0), il(0)}}), def("batch", SliceLit{TInt, []Expr{il(4), il(5), il(6)}}), VarDecl{Names: []string{"log"}, Type: TSliceString}, forUp("i", 12, SliceSet{"log", vr("i"), sl("e")}),
+		VarDecl{Names: []string{"copied", "entries"}, Short: true, Values: []Expr{Copy{"buffer", vr("batch")}, Len{vr("log")}}}, pr(vr("copied"), vr("entries")),
+		VarDecl{Names: []string{"e2", "c2"}, Short: true, Values: []Expr{Len{vr("log")}, Copy{"buffer", vr("batch")}}}, pr(vr("e2"), vr("c2")),
+		Assign{[]string{"copied", "entries", "e2"}, []Expr{Len{vr("batch")}, Copy{"buffer", vr("batch")}, Len{vr("log")}}}, pr(vr("copied"), vr("entries"), vr("e2"))}
+	extra["multi-value/lens-and-elements"] = []Stmt{def("a", SliceLit{TInt, []Expr{il(1), il(2)}}), def("b", SliceLit{TString, []Expr{sl("p"), sl("q"), sl("r")}}), def("s", sl("hello")),
+		VarDecl{Names: []string{"la", "lb", "ls"}, Short: true, Values: []Expr{Len{vr("a")}, Len{vr("b")}, Len{vr("s")}}}, pr(vr("la"), vr("lb"), vr("ls")),
+		VarDecl{Names: []string{"x", "y", "z"}, Short: true, Values: []Expr{Index{"a", il(1)}, Index{"b", il(2)}, Substr{"s", il(1), il(3)}}}, pr(vr("x"), vr("y"), vr("z")),
+		VarDecl{Names: []string{"m", "t"}, Short: true, Values: []Expr{Len{Substr{"s", il(1), nil}}, Itoa{Len{vr("b")}}}}, pr(vr("m"), vr("t")),
+		Assign{[]string{"la", "lb"}, []Expr{vr("lb"), Len{vr("s")}}}, pr(vr("la"), vr("lb"))}
+	extra["multi-value/in-function"] = []Stmt{fn("stats", []Param{{"d", TSliceInt}, {"s", TSliceInt}, {"w", TString}}, []Type{TInt, TInt}, VarDecl{Names: []string{"n", "l"}, Short: true, Values: []Expr{Copy{"d", vr("s")}, Len{vr("w")}}}, ret(vr("n"), vr("l"))),
+		def("d", SliceLit{TInt, []Expr{il(0), il(0)}}), VarDecl{Names: []string{"p", "q"}, Short: true, Values: []Expr{call("stats", vr("d"), SliceLit{TInt, []Expr{il(8), il(9)}}, sl("a dozen chars"))}}, pr(vr("p"), vr("q"), Index{"d", il(1)})}
 	for _, k := range sortedStmtKeys(extra) {
 		cases = append(cases, BashCase{Key: "S4/" + k, Prog: SingleFile(extra[k])})
 	}
@@ -373,6 +404,29 @@ func s5Range() []BashCase {
 			st2 = append(st2, fn("innerLoop", []Param{{"k", TInt}}, nil, rng("j", "y", in.inner, pr(vr("k"), vr("j"), vr("y")))), fn("outerLoop", nil, nil, body...), ExprStmt{call("outerLoop")}, pr(sl("end")))
 			cases = append(cases, BashCase{Key: "S5/nest-callee/" + o.name + "/" + in.name, Prog: SingleFile(st2)})
 		}
+	}
+	// a range loop whose body calls a function holding a loop of another kind (condition only, endless with
+	// break, three-clause, range): hidden per-loop state of the callee does not disturb the caller's position
+	calleeLoops := map[string][]Stmt{
+		"cond":   {def("k", il(0)), For{Kind: ForCond, Cond: cmp("<", vr("k"), vr("n")), Body: []Stmt{IncDec{"k", true}}}, ret(vr("k"))},
+		"ever":   {def("k", il(0)), For{Kind: ForEver, Body: []Stmt{ifs(cmp(">=", vr("k"), vr("n")), Break{}), IncDec{"k", true}}}, ret(vr("k"))},
+		"three":  {def("t", il(0)), For{Kind: ForThree, Init: def("k", il(0)), Cond: cmp("<", vr("k"), vr("n")), Post: IncDec{"k", true}, Body: []Stmt{OpAssign{"t", "+", il(1)}}}, ret(vr("t"))},
+		"range":  {def("t", il(0)), For{Kind: ForRange, RangeIdx: "k", RangeVal: "", Over: sl("ab"), Body: []Stmt{OpAssign{"t", "+", vr("n")}}}, ret(vr("t"))},
+		"cond-never-entered": {def("k", il(0)), For{Kind: ForCond, Cond: cmp("<", vr("n"), il(0)), Body: []Stmt{IncDec{"k", true}}}, ret(bin("+", vr("k"), vr("n")))},
+	}
+	for _, ck := range []string{"cond", "ever", "three", "range", "cond-never-entered"} {
+		spin := fn("spin", []Param{{"n", TInt}}, []Type{TInt}, calleeLoops[ck]...)
+		cases = append(cases, BashCase{Key: "S5/callee-loop/" + ck + "/range-slice", Prog: SingleFile([]Stmt{spin, def("a", SliceLit{TInt, []Expr{il(2), il(0), il(3), il(1)}}), rng("i", "v", vr("a"), pr(vr("i"), vr("v"), call("spin", vr("v")))), pr(sl("end"))})})
+		cases = append(cases, BashCase{Key: "S5/callee-loop/" + ck + "/range-string", Prog: SingleFile([]Stmt{spin, rng("i", "ch", sl("wxyz"), pr(vr("i"), vr("ch"), call("spin", vr("i")))), pr(sl("end"))})})
+		cases = append(cases, BashCase{Key: "S5/callee-loop/" + ck + "/three-clause", Prog: SingleFile([]Stmt{spin, def("a", SliceLit{TInt, []Expr{il(2), il(0), il(3)}}), For{Kind: ForThree, Init: def("i", il(0)), Cond: cmp("<", vr("i"), Len{vr("a")}), Post: IncDec{"i", true}, Body: []Stmt{pr(vr("i"), call("spin", Index{"a", vr("i")}))}}, pr(sl("end"))})})
+		cases = append(cases, BashCase{Key: "S5/callee-loop/" + ck + "/range-in-function-growing", Prog: SingleFile([]Stmt{spin, fn("run", nil, nil, def("a", SliceLit{TInt, []Expr{il(1), il(2), il(3)}}), def("out", SliceLit{TInt, nil}), rng("i", "v", vr("a"), SliceSet{"out", Len{vr("out")}, call("spin", vr("v"))}), pr(Len{vr("out")}, Index{"out", il(0)}, Index{"out", il(2)})), callS("run"), callS("run")})})
+	}
+	// raw string literals keep every byte between the back quotes: a backslash is a character, not an escape
+	for i, raw := range []string{"C:\\repo\\src\\readme", "a\\nb\\tc", "\\r", "\\d+\\w*", "tab\\there", "50%\\r\\n"} {
+		lit := StrLit{V: raw, Raw: true}
+		n := int64(len(raw))
+		cases = append(cases, BashCase{Key: fmt.Sprintf("S1/raw-backslash/%d", i), Prog: SingleFile([]Stmt{def("s", lit), pr(Len{vr("s")}, Len{lit}), pr(framed(vr("s"))), pr(framed(Substr{"s", il(1), il(n - 1)}), framed(Substr{"s", nil, il(2)}), framed(Substr{"s", il(n - 2), nil})),
+			rng("i", "ch", vr("s"), pr(vr("i"), framed(vr("ch")))), def("t", bin("+", vr("s"), lit)), pr(Len{vr("t")}, cmp("==", vr("t"), bin("+", lit, vr("s"))), cmp("!=", vr("s"), sl("x")))})})
 	}
 	for _, k := range sortedStmtKeys(progs) {
 		cases = append(cases, BashCase{Key: "S5/" + k, Prog: SingleFile(progs[k])})
